@@ -29,12 +29,23 @@ class World(object):
     def tok2(self, i):
         return S("tok2", i, "-", len(self.secondary[i]))
 
-    def fresh(self, cls, length, at0=False):
+    def fresh(self, cls, length, at0=False, near=None):
+        """near: a raw (unpackable) string that only just fails to be packable - "lowerhex": hex digits with a lower-case letter,
+        "mixed": nibble characters and hex letters together."""
         self.n += 1
         ref = "%s%d_%d" % (cls[0], self.n, length)
         r = random.Random("%s/%s/%d" % (self.seed, ref, length))
         for attempt in range(50):
-            if cls == "nib":
+            if cls == "raw" and near == "lowerhex":
+                s = [r.choice("0123456789abcdefABCDEF") for _ in range(length)]
+                s[r.randrange(length)] = r.choice("abcdef")
+                s = "".join(s)
+            elif cls == "raw" and near == "mixed" and length >= 2:
+                s = [r.choice("0123456789ABCDEF-.") for _ in range(length)]
+                i, j = r.sample(range(length), 2)
+                s[i], s[j] = r.choice("-."), r.choice("ABCDEF")
+                s = "".join(s)
+            elif cls == "nib":
                 s = "".join(r.choice(NIB) for _ in range(length))
             elif cls == "hex":
                 s = list(r.choice(HEX) for _ in range(length))
@@ -221,6 +232,11 @@ def generate(world, rng, thorough):
         for cls in ("nib", "hex"):
             cases.append(T(msg, [(idk, w.fresh(cls, L)), (frm, w.jid(w.fresh(cls, L), w.tok1(8))), (w.fresh(cls, min(L, 40)), w.fresh("raw", 2))],
                            kids=[T(w.fresh(cls, min(L, 30)), [], bin=w.fresh(cls, L))]))
+    # 2b. strings that only just fail to be packable (lower-case hex digits; nibble characters mixed with hex letters) stay plain text
+    for L in ([2, 3, 4, 6, 8, 16, 32, 40, 64, 126, 127, 128] if not thorough else list(range(2, 131))):
+        for near in ("lowerhex", "mixed"):
+            cases.append(T(msg, [(idk, w.fresh("raw", L, near=near)), (frm, w.jid(w.fresh("raw", L, near=near), w.tok1(8)))],
+                           kids=[T(w.fresh("raw", min(L, 30), near=near), [], bin=w.fresh("raw", L, near=near))]))
     # 3. raw text lengths, JIDs with raw user / raw server
     for L in [1, 2, 127, 128, 255, 256, 257, 65535, 65536] + ([1048575, 1048576] if thorough else []):
         cases.append(T(w.fresh("raw", min(L, 300)), [(typ, w.fresh("raw", L)), (to, w.jid(w.fresh("raw", min(L, 200)), w.fresh("raw", 9)))]))
@@ -251,6 +267,8 @@ def generate(world, rng, thorough):
             return w.fresh("hex", rng.choice([1, 2, 8, 32, 40, 127]))
         if c < 0.85 and pos == "v":
             return w.jid(rstr("u") if rng.random() < 0.8 else w.fresh("raw", 6), rng.choice([w.tok1(8), w.fresh("raw", 4), w.tok2(rng.randint(0, 1023))]))
+        if c < 0.9:
+            return w.fresh("raw", rng.choice([2, 4, 8, 12, 32]), near=rng.choice(["lowerhex", "mixed"]))
         return w.fresh("raw", rng.choice([1, 3, 7, 20, 255, 256, 400]))
 
     def rtree(depth):
